@@ -332,7 +332,8 @@ class P(Prop):
                        "infinities; Ext has one zero) and the rounding of a norm that cancels exactly in the rationals (the stream uses totals that are powers of two, so that the "
                        "normalised weights are dyadic)",
                        "the feature-name kernel over a feature holding a NaN is driven through Filter.execute (stream 'ext', via = feat) and covered by list_zero_or_nan_total; "
-                       "Model.operate / filter_seq still report it as `nanKernel` (not threaded through the front ends)",
+                       "Model.operate / filter_seq over a field still report it as `nanKernel`; over Python's numbers the front ends are modelled for weight LISTS only (operateListX, "
+                       "filterSeqListX, stream 'extseq'), not for Kernel objects, feature names, Track.smooth",
                        "values read back as numpy scalars by a later call on the same track change ZeroDivisionError into nan outside the domain: sessions use one track per call, "
                        "and the same track is filtered twice only when both passes are in the domain",
                        "a track shorter than the half window with copied boundaries raises IndexError (short_track_index_error, smooth_too_short_fails): outside the property's "
@@ -353,6 +354,8 @@ class P(Prop):
                 "sessions of calls threading the module-level state; TrackCollection.smooth (Model/FilterColl.lean: the loop over the tracks, each smoothed in place by "
                 "Track.smooth with a new Gaussian kernel, default constraint = 1e3, the first exception leaves the loop; the state of the failing track after the exception is "
                 "not modelled); "
+                "track.operate(FILTER) / filter_seq for a weight LIST over Python's numbers (operateListX / seqLoopListX / filterSeqListX: the list divided by its total again at every "
+                "dimension, coordinates through `temp`); "
                 "Filter.execute over Python's numbers (Model/FilterExt.lean: the same loops `cells` / `normalise` instantiated at Ext = exact scalars + inf, -inf, nan): a weight list "
                 "whose total is 0 / NaN / infinite (`kernel[i] /= norm` with numpy scalars does not raise), negative weights with a cancelling norm (+/-inf, not ZeroDivisionError), "
                 "NaN / infinite weights (a feature-name kernel over a feature holding NaN), infinite samples under list weights and under Kernel-object windows (0 * inf = nan)")
@@ -386,7 +389,9 @@ class P(Prop):
             "only where the property speaks: non-negative finite weights with a positive total, at the windows holding no infinite sample; 'coll' (TrackCollection.smooth on 0..4 tracks, "
             "widths 0.5..2 or the default constraint 1e3, tracks longer than the window / between the half window and the window / shorter than the half window / without observation): "
             "every track reached before an exception is judged like a track smoothed alone, with the window the implementation exposes; the exception is excusable only on the first track "
-            "that is by its input outside the domain or shorter than the half window. non-trivial = window of "
+            "that is by its input outside the domain or shorter than the half window; 'extseq' (filter_seq with a weight list over Ext Rat: derivative kernels [1,0,-1], [-1,0,1], "
+            "[1,-2,1] and other zero totals, negative weights with a total +/- a power of two, a NaN / infinite weight, on x/y/z and a feature holding NaN / infinite samples; judged only "
+            "for non-negative lists with a positive total). non-trivial = window of "
             "at least 3 weights and a non-constant signal (or a sliding-window case)")
 
     def setup(self):
@@ -927,6 +932,86 @@ class P(Prop):
                 return "track %d of the collection: %s" % (i, bad)
         return None
 
+    # ---------------------------------------------------------------- 'extseq': filter_seq / operate with a weight list over Python's numbers
+    # case: {"kind": "extseq", "sc": "r", "x": .., "y": .., "z": .., "feats": {..}, "w": [weights], "dims": [names]}
+    def extseq_cases(self, rng, quick):
+        out = []
+        vals = [0, 1, 2, -1, 0.5, 3, 4, -2.5, 8]
+        fixed = [[1, 0, -1], [-1, 0, 1], [1, -2, 1], [0, 0, 0], [1, -1, 0], [1, 2, -1], [1, None, 1], [1, "inf", 1], [-1, -1, 0, 1, 1], [1, 2, 1]]
+        for i in range(400 if quick else 4000):
+            if i < 3 * len(fixed):
+                w = list(fixed[i % len(fixed)])
+            else:
+                D = rng.choice([1, 1, 2, 3])
+                N = 2 * D + 1
+                r = rng.random()
+                w = [rng.choice([-2, -1, 0, 0, 1, 2, 0.5, -0.5]) for _ in range(N - 1)]
+                if r < 0.5:
+                    w.insert(rng.randrange(N), -sum(w))                                              # zero total
+                elif r < 0.8:
+                    w.insert(rng.randrange(N), rng.choice([1, 2, 4, 0.5, -1, -2]) - sum(w))          # +/- a power of two (dyadic normalised weights)
+                else:
+                    w.insert(rng.randrange(N), rng.choice([None, "inf", "-inf"]))
+            N = len(w)
+            n = max(1, N + rng.choice([-2, -1, 0, 0, 1, 2, 3, 5]))
+            def sig():
+                v = [rng.choice(vals) for _ in range(n)]
+                for _ in range(rng.choice([0, 0, 0, 1, 2])):
+                    v[rng.randrange(n)] = rng.choice([None, "inf", "-inf"])
+                return v
+            feats = {"s": sig()} if rng.random() < 0.4 else {}
+            dims = rng.choice([["x", "y", "z"], ["x", "y", "z"], ["x", "y"], ["z"], ["y", "s"] if feats else ["y"], ["s", "x"] if feats else ["x"]])
+            out.append({"kind": "extseq", "sc": "r", "x": sig(), "y": sig(), "z": sig(), "feats": feats, "w": w, "dims": dims})
+        return out
+
+    def extseq_impl(self, case):
+        t = self.mk_track(case["x"], case["y"], case["z"])
+        for nm, v in case["feats"].items():
+            t.createAnalyticalFeature(nm, [num(a) for a in v])
+        kern = [num(a) for a in case["w"]]
+        r = self.F.filter_seq(t, kern, list(case["dims"]))
+        return {"sigs": self.read_track(t), "same": r is t, "kafter": [canon(a) for a in kern]}
+
+    def extseq_requests(self, case):
+        names = ["x", "y", "z"] + list(case["feats"])
+        sigs = [case["x"], case["y"], case["z"]] + [case["feats"][n] for n in case["feats"]]
+        return ["C15.seqx r %s %s %s %s" % (tok_list(case["dims"]), tok_list(names),
+                                            tok_list((tok_list(self.ext_tok(a) for a in s_) for s_ in sigs), ";"),
+                                            tok_list(self.ext_tok(a) for a in case["w"]))]
+
+    def extseq_decode(self, case, replies):
+        r = replies[0].split(" ")
+        if r[0] != "ok":
+            return {"err": r[0]}
+        names = untok(r[2])
+        sigs = [[self.ext_val(t) for t in untok(s_)] for s_ in untok(r[3], ";")]
+        return {"sigs": dict(zip(names, sigs)), "same": True, "kafter": [self.ext_val(t) for t in untok(r[1])]}
+
+    def extseq_spec(self, case, out):
+        """the property speaks of non-negative weight lists with a positive total on signals without infinite sample in the judged windows:
+        then every listed signal is judged (check_nonfinite), the others must be unchanged; anything else is correspondence only"""
+        w = case["w"]
+        if any(not finite(a) for a in w) or any(a < 0 for a in w) or sum(w) <= 0 or len(w) % 2 == 0:
+            return None
+        wf = [Fraction(a) for a in w]
+        allsig = dict({"x": case["x"], "y": case["y"], "z": case["z"]}, **case["feats"])
+        fin0 = lambda v: [0 if isinstance(a, str) else a for a in v]
+        if len(w) > 1 and (any(not domain_ok(wf, fin0(allsig[d])) for d in case["dims"]) or index_zone(wf, False, len(case["x"]))):
+            return None
+        if "err" in out:
+            return "raised %s (%s) inside the domain" % (out["err"], out.get("detail", ""))
+        if not out["same"]:
+            return "filter_seq did not return the track it filtered"
+        for nm, v in allsig.items():
+            got = out["sigs"].get(nm)
+            if nm in case["dims"] and len(w) != 1:
+                bad = check_nonfinite(wf, v, False, got, nm)
+                if bad:
+                    return bad
+            elif got != [canon(num(a)) for a in v]:
+                return "%s was not to be filtered but changed: %r -> %r" % (nm, v, got)
+        return None
+
     def cases(self, rng, tier):
         out = []
         quick = tier == "quick"
@@ -1133,6 +1218,7 @@ class P(Prop):
             out.append(self.rand_bad(rng))
         out.extend(self.ext_cases(rng, quick))
         out.extend(self.coll_cases(rng, quick))
+        out.extend(self.extseq_cases(rng, quick))
         return out
 
     def rand_op(self, rng):
@@ -1285,6 +1371,10 @@ class P(Prop):
         kind = case["kind"]
         if kind == "ext":
             return {"kind": kind, "kernel": case["k"]["t"], "scalar": "r", "via": case["via"], "ext": "+".join(self.ext_class(case))}
+        if kind == "extseq":
+            w = case["w"]
+            cl = ("nonfinite_weight" if any(not finite(a) for a in w) else "zero_total" if sum(w) == 0 else "negative_weight" if any(a < 0 for a in w) else "plain")
+            return {"kind": kind, "kernel": "list", "scalar": "r", "ext": cl, "dims": len(case["dims"])}
         if kind == "coll":
             return {"kind": kind, "kernel": "gaussian", "scalar": "f", "tracks": min(len(case["tracks"]), 4),
                     "width_argument": "omitted" if case.get("womit") else "given"}
@@ -1353,6 +1443,8 @@ class P(Prop):
             return False
         if kind == "coll":
             return len(case["tracks"]) >= 2 and not case.get("womit")
+        if kind == "extseq":
+            return False
         if kind == "sw":
             return True
         if kind in ("zeronorm", "badk"):
@@ -1522,6 +1614,8 @@ class P(Prop):
             return self.ext_impl(case)
         if kind == "coll":
             return self.coll_impl(case)
+        if kind == "extseq":
+            return self.extseq_impl(case)
         if kind == "sw":
             return {"window": self.window_of(case["k"])}
         if kind in ("feat", "zeronorm", "short", "zerow", "inff"):
@@ -1672,6 +1766,8 @@ class P(Prop):
             return self.ext_requests(case)
         if kind == "coll":
             return self.coll_requests(case)
+        if kind == "extseq":
+            return self.extseq_requests(case)
         if kind == "sw" or (kind == "badk" and "dims" not in case):
             return ["C15.sw %s %s" % (sc, self.kspec(sc, case["k"]))]
         if kind in ("feat", "zeronorm", "short", "zerow", "inff"):
@@ -1770,6 +1866,8 @@ class P(Prop):
             return self.ext_decode(case, replies)
         if kind == "coll":
             return self.coll_decode(case, replies)
+        if kind == "extseq":
+            return self.extseq_decode(case, replies)
         if kind == "sw" or (kind == "badk" and "dims" not in case):
             r = replies[-1].split(" ")
             if r[0] != "ok":
@@ -1924,6 +2022,8 @@ class P(Prop):
             return self.ext_spec(case, out)
         if kind == "coll":
             return self.coll_spec(case, out)
+        if kind == "extseq":
+            return self.extseq_spec(case, out)
         if kind in ("zeronorm", "badk") or (kind == "opl" and not case["judge"]):
             return None  # outside the domain of the property (a window without valid weight / a refused call / a form of
             #              the list arguments whose final track the property does not describe)
@@ -2064,6 +2164,11 @@ class P(Prop):
 
     def shrink(self, case):
         kind = case["kind"]
+        if kind == "extseq":
+            if len(case["dims"]) > 1:
+                for d in case["dims"]:
+                    yield dict(case, dims=[e for e in case["dims"] if e != d])
+            return
         if kind == "coll":
             ts = case["tracks"]
             if len(ts) > 1:
@@ -2213,6 +2318,8 @@ class P(Prop):
 
     def mutate(self, case, rng):
         kind = case["kind"]
+        if kind == "extseq":
+            return
         if kind == "coll":
             return
         if kind == "ext":
